@@ -157,7 +157,13 @@ def compare(case, impl, model, stats=None, proj=None):
                         [a[0] for a in ir], pr, expect, [b[0] for b in mr]))
     elif op in ("gauss", "ordinal") or (op == "order" and case["fn"] == "pysum"):
         sc = 0.0
-        if not close(ir, mr, sc, stats):
+        ok = close(ir, mr, sc, stats)
+        if not ok and op == "gauss" and case.get("fn") == "wt" and "t" in case and case["t"] > 0:
+            # W~ is a quotient of two cancelling differences: its computed value carries rounding noise of order 1e-13/t
+            # (the term property C17 itself grants), and any other correct evaluation order of the same formula realises
+            # that noise differently.  Two evaluations of the documented form agree to that noise, not to 1e-9.
+            ok = abs(fh(ir) - fh(mr)) <= 1e-12 / case["t"]
+        if not ok:
             out.append("%s: impl %s / model %s" % (case.get("fn", op), fh(ir), fh(mr)))
     elif op == "minit":
         if ir != _canon_state(mr):
